@@ -132,7 +132,7 @@ def hrevolve_aux(l, K, cmem, cvect, wvect, rvect, hoptp=None,  # noqa: E741
     uf = params["uf"]
     ub = params["ub"]
     if (hoptp is None) or (hopt is None):
-        (hoptp, hopt) = get_hopt_table(l, cvect, wvect, rvect, uf, ub)
+        (hoptp, hopt) = get_hopt_table(l, cvect, wvect, rvect, ub, uf)
     sequence = Sequence(Function("hrevolve_aux", l, [K, cmem]),
                         levels=len(cvect), concat=params["concat"])
     operation = partial(Op, params=params)
@@ -302,7 +302,7 @@ def hrevolve_recurse(l, K, cmem, cvect, wvect, rvect, hoptp=None,  # noqa: E741
     uf = params["uf"]
     ub = params["ub"]
     if (hoptp is None) or (hopt is None):
-        (hoptp, hopt) = get_hopt_table(l, cvect, wvect, rvect, uf, ub)
+        (hoptp, hopt) = get_hopt_table(l, cvect, wvect, rvect, ub, uf)
     sequence = Sequence(Function("HRevolve", l, [K, cmem]),
                         levels=len(cvect), concat=parameters["concat"])
     operation = partial(Op, params=parameters)
